@@ -467,6 +467,219 @@ theorem nul_detect {T : Table} (lens : List Nat) (h : incomparableB T [0] = true
   rw [lookupLens_eq_none_of_noKey hnk, hcsi]
   simp [detectTail, idx]
 
+/-! ### alt + printable character -/
+
+/-- the first byte of the encoding of a printable character other than `[` is above the space,
+not DEL and not `[` -/
+theorem encodeRune_head_alt {r : Nat} (h : printable r = true) (h5 : r ≠ 0x5b) :
+    ∃ c tl, encodeRune r = c :: tl ∧ plainByte c ∧ c ≠ 0x5b := by
+  obtain ⟨_, h32, h127, _⟩ := printable_iff.1 h
+  unfold encodeRune
+  by_cases h1 : r < 0x80
+  · rw [if_pos h1]; exact ⟨_, _, rfl, ⟨h32, h127⟩, h5⟩
+  · rw [if_neg h1]
+    by_cases h2 : r < 0x800
+    · rw [if_pos h2]; exact ⟨_, _, rfl, ⟨by omega, by omega⟩, by omega⟩
+    · rw [if_neg h2]
+      split
+      · exact ⟨_, _, rfl, ⟨by omega, by omega⟩, by omega⟩
+      · split
+        · exact ⟨_, _, rfl, ⟨by omega, by omega⟩, by omega⟩
+        · exact ⟨_, _, rfl, ⟨by omega, by omega⟩, by omega⟩
+
+/-- `ESC c …` with `c` any byte other than `[`: detectOneMsg is the key-table lookup
+followed by the tail, unless the buffer is a proper prefix of a key and more data may follow -/
+theorem detectOneMsg_esc_plain (T : Table) (lens : List Nat) {c : Nat} (hc5 : c ≠ 0x5b)
+    (tl : Bytes) (more : Bool) (hmore : more = false ∨ isProperPrefixOfKey T (0x1b :: c :: tl) = false) :
+    detectOneMsg T lens (0x1b :: c :: tl) more =
+      match lookupLens T (0x1b :: c :: tl) lens with
+      | some (sz, k) => .ok (sz, some (.key k))
+      | none => detectTail (0x1b :: c :: tl) more := by
+  have hc5' : ¬ (0x5b = c) := fun h => hc5 h.symm
+  have hni : NoIntroducer (0x1b :: c :: tl) = true := by
+    simp [NoIntroducer, isPrefix, bpStart, hc5, hc5']
+  have hinc : more = false ∨ isIncompleteEvent T (0x1b :: c :: tl) = false := by
+    rcases hmore with h | h
+    · exact Or.inl h
+    · right
+      unfold isIncompleteEvent
+      simp only [bne_self_eq_false, Bool.false_eq_true, if_false, h]
+      split
+      · rename_i heq; injection heq with h1 _; exact absurd h1 hc5
+      · rfl
+  rw [detectOneMsg_of_noIntro T lens _ more hinc hni]
+  have hcsi : unknownCSILen (0x1b :: c :: tl) = none := by
+    unfold unknownCSILen
+    split
+    · rename_i heq; injection heq with _ h1; injection h1 with h1 _; exact absurd h1 hc5
+    · rfl
+  unfold detectSequence
+  rw [hcsi]
+  cases lookupLens T (0x1b :: c :: tl) lens with
+  | none => rfl
+  | some p => rfl
+
+/-- the tail of detectOneMsg on `ESC` + one printable character + `rest`: alt + the character,
+consuming exactly these bytes, unless nothing follows and more data may come (then the whole
+is held back: the rune loop reached the end of the buffer) -/
+theorem detectTail_altRune (r : Nat) (hp : printable r = true) (rest : Bytes) (more : Bool) :
+    detectTail (0x1b :: encodeRune r ++ rest) more =
+      if rest = [] ∧ more = true then .ok (0, none)
+      else .ok ((0x1b :: encodeRune r).length, some (.key { type := keyRunes, runes := [r], alt := true })) := by
+  obtain ⟨hv, h32, h127, hne⟩ := printable_iff.1 hp
+  obtain ⟨c, tl, hc, hplain⟩ := encodeRune_head hp
+  have h0 : (c == 0) = false := by unfold plainByte at hplain; simp; omega
+  have hlen : 0 < (encodeRune r).length := by rw [hc]; simp
+  unfold detectTail
+  have hidx : idx (0x1b :: encodeRune r ++ rest) 0 = .ok 0x1b := by simp [idx]
+  rw [hidx]
+  simp only [beq_self_eq_true, if_true]
+  have hget : (0x1b :: encodeRune r ++ rest).getD 1 1 = c := by rw [hc]; rfl
+  rw [hget, h0]
+  simp only [Bool.and_false, Bool.false_eq_true, if_false]
+  have hloop : runeLoop true more ((0x1b :: encodeRune r ++ rest).length + 1) (0x1b :: encodeRune r ++ rest) 1 []
+      = (1 + (encodeRune r).length, [r], false) := by
+    simp only [runeLoop]
+    have hi : 1 < (0x1b :: encodeRune r ++ rest).length := by
+      simp only [List.cons_append, List.length_cons, List.length_append]; omega
+    rw [if_pos hi]
+    have hd : (0x1b :: encodeRune r ++ rest).drop 1 = encodeRune r ++ rest := rfl
+    rw [hd, decodeRune_encodeRune r hv rest]
+    simp only
+    have c1 : (r == runeError) = false := by simpa using hne
+    have c2 : (decide (r ≤ keyUS) || r == keyDEL || r == 32) = false := by
+      simp only [keyUS, keyDEL, Bool.or_eq_false_iff, beq_eq_false_iff_ne, ne_eq]
+      refine ⟨⟨?_, h127⟩, ?_⟩
+      · have : ¬ r ≤ 31 := by omega
+        simp [this]
+      · omega
+    rw [c1]
+    simp only [Bool.false_and, Bool.false_or, Bool.false_eq_true, if_false]
+    rw [c2]
+    simp
+  rw [hloop]
+  simp only [Bool.false_eq_true, if_false]
+  have h2 : ([r] == [32]) = false := by simp; omega
+  have hblen : (0x1b :: encodeRune r ++ rest).length = 1 + (encodeRune r).length + rest.length := by
+    simp only [List.cons_append, List.length_cons, List.length_append]; omega
+  by_cases hr : rest = []
+  · subst hr
+    cases more with
+    | true => simp; omega
+    | false => simp [h2]; omega
+  · have hrl : 0 < rest.length := List.length_pos_iff.2 hr
+    have : (decide (1 + (encodeRune r).length ≥ (0x1b :: encodeRune r ++ rest).length) && more) = false := by
+      rw [hblen]; simp; omega
+    rw [this]
+    simp [hr, h2]; omega
+
+theorem altRune_noKey {T : Table} {r : Nat} (hinc : incomparableB T (0x1b :: encodeRune r) = true)
+    (rest : Bytes) : NoKeyPrefix T (0x1b :: encodeRune r ++ rest) :=
+  noKeyPrefix_of_incomp hinc rest
+
+/-- `ESC` + one printable character (not `[`; no key of the table comparable with these bytes)
+followed by `rest`: alt + the character, consuming exactly these bytes — when something follows,
+or in a short read -/
+theorem altRune_detect {T : Table} (lens : List Nat) (r : Nat) (hp : printable r = true) (h5 : r ≠ 0x5b)
+    (hinc : incomparableB T (0x1b :: encodeRune r) = true) (rest : Bytes) (more : Bool)
+    (hm : rest ≠ [] ∨ more = false) :
+    detectOneMsg T lens (0x1b :: encodeRune r ++ rest) more
+      = .ok ((0x1b :: encodeRune r).length, some (.key { type := keyRunes, runes := [r], alt := true })) := by
+  obtain ⟨c, tl, hc, hplain, hc5⟩ := encodeRune_head_alt hp h5
+  have hb : 0x1b :: encodeRune r ++ rest = 0x1b :: c :: (tl ++ rest) := by rw [hc]; rfl
+  have hnpp := npp_of_incomp hinc rest
+  rw [hb] at hnpp
+  have := detectOneMsg_esc_plain T lens hc5 (tl ++ rest) more (Or.inr hnpp)
+  rw [← hb] at this
+  rw [this, lookupLens_eq_none_of_noKey (altRune_noKey hinc rest), detectTail_altRune r hp rest more]
+  rw [if_neg]
+  intro h
+  rcases hm with h' | h'
+  · exact h' h.1
+  · rw [h'] at h; cases h.2
+
+/-- `ESC` + one printable character alone at the very end of a completely filled read: held
+back whole (the rune loop reached the end of the buffer, more data may follow) -/
+theorem altRune_end_held {T : Table} (lens : List Nat) (r : Nat) (hp : printable r = true) (h5 : r ≠ 0x5b)
+    (hinc : incomparableB T (0x1b :: encodeRune r) = true) :
+    detectOneMsg T lens (0x1b :: encodeRune r) true = .ok (0, none) := by
+  obtain ⟨c, tl, hc, hplain, hc5⟩ := encodeRune_head_alt hp h5
+  have hnpp := npp_of_incomp hinc []
+  have hnk := altRune_noKey hinc []
+  have htail := detectTail_altRune r hp [] true
+  rw [List.append_nil] at hnpp hnk htail
+  have hb : 0x1b :: encodeRune r = 0x1b :: c :: tl := by rw [hc]
+  rw [hb] at hnpp
+  have := detectOneMsg_esc_plain T lens hc5 tl true (Or.inr hnpp)
+  rw [← hb] at this
+  rw [this, lookupLens_eq_none_of_noKey hnk, htail]
+  simp
+
+/-- a proper non-empty prefix of `ESC utf8(r)` alone at the end of a completely filled read is
+held back: `ESC` alone is an incomplete event (some longer key starts with ESC); `ESC` + a
+truncated multi-byte character is stopped by the `FullRune` test of the rune loop -/
+theorem altRune_cut_held {T : Table} (lens : List Nat) (hesc : isProperPrefixOfKey T [0x1b] = true)
+    (r : Nat) (hp : printable r = true) (h5 : r ≠ 0x5b)
+    (hinc : incomparableB T (0x1b :: encodeRune r) = true)
+    (k : Nat) (hk : 0 < k) (hk' : k < (0x1b :: encodeRune r).length) :
+    detectOneMsg T lens ((0x1b :: encodeRune r).take k) true = .ok (0, none) := by
+  by_cases h1 : k = 1
+  · subst h1
+    exact isIncomplete_held T lens _ (isIncompleteEvent_esc T hesc)
+  · obtain ⟨j, rfl⟩ : ∃ j, k = j + 1 := ⟨k - 1, by omega⟩
+    have hj : 0 < j := by omega
+    have hj' : j < (encodeRune r).length := by simpa using hk'
+    simp only [List.take_succ_cons]
+    by_cases hie : isIncompleteEvent T (0x1b :: (encodeRune r).take j) = true
+    · exact isIncomplete_held T lens _ hie
+    · obtain ⟨c, tl, hc, hplain, hc5⟩ := encodeRune_head_alt hp h5
+      obtain ⟨j', rfl⟩ : ∃ j', j = j' + 1 := ⟨j - 1, by omega⟩
+      have hb : 0x1b :: (encodeRune r).take (j' + 1) = 0x1b :: c :: tl.take j' := by rw [hc]; rfl
+      -- the buffer is not a proper prefix of a key (or it would be an incomplete event)
+      have hnpp : isProperPrefixOfKey T (0x1b :: c :: tl.take j') = false := by
+        cases hq : isProperPrefixOfKey T (0x1b :: c :: tl.take j') with
+        | false => rfl
+        | true =>
+          exfalso; apply hie
+          rw [hb]
+          unfold isIncompleteEvent
+          simp [hq]
+      -- no key is a prefix of it
+      have hnk : NoKeyPrefix T (0x1b :: (encodeRune r).take (j' + 1)) := by
+        intro e he hpre
+        have h := altRune_noKey hinc [] e he
+        rw [List.append_nil] at h
+        exact h (hpre.trans (List.cons_prefix_cons.2 ⟨rfl, List.take_prefix _ _⟩))
+      have := detectOneMsg_esc_plain T lens hc5 (tl.take j') true (Or.inr hnpp)
+      rw [← hb] at this
+      rw [this, lookupLens_eq_none_of_noKey hnk]
+      -- the tail: the rune loop stops at the truncated character
+      obtain ⟨t1, t2⟩ := trunc_encodeRune r (printable_iff.1 hp).1 (j' + 1) hj hj'
+      have h0 : (c == 0) = false := by unfold plainByte at hplain; simp; omega
+      unfold detectTail
+      have hidx : idx (0x1b :: (encodeRune r).take (j' + 1)) 0 = .ok 0x1b := by simp [idx]
+      rw [hidx]
+      simp only [beq_self_eq_true, if_true]
+      have hget : (0x1b :: (encodeRune r).take (j' + 1)).getD 1 1 = c := by rw [hb]; rfl
+      rw [hget, h0]
+      simp only [Bool.and_false, Bool.false_eq_true, if_false]
+      have hloop : (runeLoop true true ((0x1b :: (encodeRune r).take (j' + 1)).length + 1)
+          (0x1b :: (encodeRune r).take (j' + 1)) 1 []).2.2 = true := by
+        simp only [runeLoop]
+        have hi : 1 < (0x1b :: (encodeRune r).take (j' + 1)).length := by
+          rw [hb]; simp
+        rw [if_pos hi]
+        have hd : (0x1b :: (encodeRune r).take (j' + 1)).drop 1 = (encodeRune r).take (j' + 1) := rfl
+        rw [hd]
+        generalize hdr : decodeRune ((encodeRune r).take (j' + 1)) = dr at t1
+        obtain ⟨r', rw'⟩ := dr
+        simp only at t1 ⊢
+        subst t1
+        rw [t2]
+        simp
+      rw [hloop]
+      simp
+
 /-! ### the event grammar -/
 
 /-- a control byte, space or DEL: what closes a run of printable characters -/
@@ -495,6 +708,17 @@ theorem csi_ok_spec {T : Table} {ps is : Bytes} {f : Nat} (h : (Ev.csi ps is f).
   simp only [Ev.ok, Bool.and_eq_true, List.all_eq_true] at h
   exact ⟨h.1.1.1.1, h.1.1.1.2, h.1.1.2, h.1.2, h.2⟩
 
+theorem altRune_ok_spec {T : Table} {r : Nat} (h : (Ev.altRune r).ok T = true) :
+    printable r = true ∧ r ≠ 0x5b ∧ incomparableB T (0x1b :: encodeRune r) = true := by
+  simp only [Ev.ok, Bool.and_eq_true, bne_iff_ne, ne_eq] at h
+  exact ⟨h.1.1, h.1.2, h.2⟩
+
+/-- alt + character: the one event class besides runs that, alone at the very end of a completely
+filled read, is held back (the rune loop reached the end of the buffer) -/
+def Ev.isAltRune : Ev → Bool
+  | .altRune _ => true
+  | _ => false
+
 theorem paste_ok_spec {T : Table} {p : Bytes} (h : (Ev.paste p).ok T = true) : ¬ bpEnd <:+: p := by
   simp only [Ev.ok, Option.isNone_iff_eq_none] at h
   exact (indexOf_eq_none_iff bpEnd p).1 h
@@ -511,6 +735,7 @@ theorem ev_bytes_ne_nil {T : Table} (e : Ev) (h : e.ok T = true) : e.bytes ≠ [
   | paste p => simp [Ev.bytes, bpStart]
   | csi ps is f => simp [Ev.bytes, csiBytes]
   | nul => simp [Ev.bytes]
+  | altRune r => simp [Ev.bytes]
 
 /-- every event other than a run starts with a control byte, space or DEL -/
 theorem ev_head {T : Table} (hT : WFTable T) (e : Ev) (h : e.ok T = true) (hr : e.isRun = false) :
@@ -525,12 +750,16 @@ theorem ev_head {T : Table} (hT : WFTable T) (e : Ev) (h : e.ok T = true) (hr : 
   | paste p => exact ⟨0x1b, _, paste_event_cons p, Or.inl (by omega)⟩
   | csi ps is f => exact ⟨0x1b, _, rfl, Or.inl (by omega)⟩
   | nul => exact ⟨0, [], rfl, Or.inl (by omega)⟩
+  | altRune r => exact ⟨0x1b, _, rfl, Or.inl (by omega)⟩
 
 /-- an event followed by `r` decodes to its message and consumes exactly its bytes, whatever
-`more` is; for a run, `r` must start with a byte that closes it (or be empty, in a short read) -/
+`more` is; for a run, `r` must start with a byte that closes it (or be empty, in a short read);
+for alt + character, `r` must be non-empty or the read short (alone at the end of a completely
+filled read it is held back, `ev_end`) -/
 theorem ev_detect {T : Table} {lens : List Nat} (hT : TableOK T lens) (e : Ev) (h : e.ok T = true)
     (r : Bytes) (more : Bool)
-    (hr : e.isRun = true → (∃ c tl, r = c :: tl ∧ ctrlByte c) ∨ (r = [] ∧ more = false)) :
+    (hr : e.isRun = true → (∃ c tl, r = c :: tl ∧ ctrlByte c) ∨ (r = [] ∧ more = false))
+    (ha : e.isAltRune = true → r ≠ [] ∨ more = false) :
     detectOneMsg T lens (e.bytes ++ r) more = .ok (e.bytes.length, some e.msg) := by
   cases e with
   | run rs =>
@@ -555,6 +784,9 @@ theorem ev_detect {T : Table} {lens : List Nat} (hT : TableOK T lens) (e : Ev) (
     obtain ⟨hp, hi, hf, hplain, hinc⟩ := csi_ok_spec h
     exact csi_detect hT ps is f hp hi hf hplain hinc r more
   | nul => exact nul_detect lens (by simpa [Ev.ok] using h) r more
+  | altRune c =>
+    obtain ⟨hp, h5, hinc⟩ := altRune_ok_spec h
+    exact altRune_detect lens c hp h5 hinc r more (ha rfl)
 
 /-- a proper non-empty prefix of an event, alone at the end of a completely filled read, is
 held back -/
@@ -580,8 +812,12 @@ theorem ev_cut_held {T : Table} {lens : List Nat} (hT : TableOK T lens) (e : Ev)
     obtain ⟨hp, hi, _, _, _⟩ := csi_ok_spec h
     exact csi_cut_held lens hT.esc ps is f hp hi k hk hk'
   | nul => simp [Ev.bytes] at hk'; omega
+  | altRune r =>
+    obtain ⟨hp, h5, hinc⟩ := altRune_ok_spec h
+    exact altRune_cut_held lens hT.esc r hp h5 hinc k hk hk'
 
-/-- an event alone at the very end of a completely filled read: decoded, or (a run) held back -/
+/-- an event alone at the very end of a completely filled read: decoded, or (a run, or alt +
+character) held back -/
 theorem ev_end {T : Table} {lens : List Nat} (hT : TableOK T lens) (e : Ev) (h : e.ok T = true) :
     detectOneMsg T lens e.bytes true = .ok (e.bytes.length, some e.msg) ∨
     detectOneMsg T lens e.bytes true = .ok (0, none) := by
@@ -596,10 +832,17 @@ theorem ev_end {T : Table} {lens : List Nat} (hT : TableOK T lens) (e : Ev) (h :
       rw [List.take_length] at this
       exact this
     | _ => simp [Ev.isRun] at hr
-  · left
-    have := ev_detect hT e h [] true (fun h' => absurd h' hr)
-    rw [List.append_nil] at this
-    exact this
+  · by_cases ha : e.isAltRune = true
+    · right
+      cases e with
+      | altRune r =>
+        obtain ⟨hp, h5, hinc⟩ := altRune_ok_spec h
+        exact altRune_end_held lens r hp h5 hinc
+      | _ => simp [Ev.isAltRune] at ha
+    · left
+      have := ev_detect hT e h [] true (fun h' => absurd h' hr) (fun h' => absurd h' ha)
+      rw [List.append_nil] at this
+      exact this
 
 theorem streamBytes_evStream_cons (e : Ev) (tl : List Ev) :
     streamBytes (evStream (e :: tl)) = e.bytes ++ streamBytes (evStream tl) := by
@@ -635,7 +878,7 @@ theorem evStream_ok {T : Table} {lens : List Nat} (hT : TableOK T lens) :
         exact ⟨c, t ++ streamBytes (evStream tl''), by rw [streamBytes_evStream_cons, hb]; rfl, hc⟩
     refine ⟨⟨ev_bytes_ne_nil e hok, ?_, ih1⟩, ⟨?_, ?_, ev_end hT e hok, ih2⟩⟩
     · show detectOneMsg T lens (e.bytes ++ streamBytes (evStream tl)) false = _
-      apply ev_detect hT e hok
+      apply ev_detect hT e hok _ _ _ (fun _ => Or.inr rfl)
       intro hrun
       rcases hrest hrun with h | h
       · exact Or.inr ⟨h, rfl⟩
@@ -644,7 +887,7 @@ theorem evStream_ok {T : Table} {lens : List Nat} (hT : TableOK T lens) :
       exact ev_cut_held hT e hok k hk hk'
     · intro r hr hpre
       change r <+: streamBytes (evStream tl) at hpre
-      apply ev_detect hT e hok
+      apply ev_detect hT e hok _ _ _ (fun _ => Or.inl hr)
       intro hrun
       left
       rcases hrest hrun with h | ⟨c, tl', h, hc⟩
